@@ -866,3 +866,199 @@ Section FromFA.
     grel ok (sgnfa_of_nfa n) (gnfa_of_nfa n).
   Proof. intros Hv Hs Hk. apply grel_fa. apply nfa_lab_rel; assumption. Qed.
 End FromFA.
+
+(* ================================================================== *)
+(* G. the loop of to_regex under an arbitrary schedule                 *)
+(* ================================================================== *)
+Definition sg_ok (g : sg) : Prop :=
+  NoDup (s_states g) /\ In (s_init g) (s_states g) /\ In (s_final g) (s_states g) /\ s_init g <> s_final g.
+
+Lemma argmin_first_In deg l : forall q, argmin_first deg l = Some q -> In q l.
+Proof.
+  induction l as [|c r IH]; intros q H; simpl in H; [discriminate|].
+  destruct (argmin_first deg r) as [m|].
+  - destruct (Nat.ltb (deg m) (deg c)); injection H as <-; [right; apply IH; reflexivity|left; reflexivity].
+  - injection H as <-. left. reflexivity.
+Qed.
+
+Lemma argmin_first_None deg l : argmin_first deg l = None -> l = [].
+Proof.
+  destruct l as [|c r]; [reflexivity|]. simpl. destruct (argmin_first deg r) as [m|]; [|discriminate].
+  destruct (Nat.ltb (deg m) (deg c)); discriminate.
+Qed.
+
+Lemma cand_order_In inner hint x : In x (cand_order inner hint) <-> In x inner.
+Proof.
+  unfold cand_order. rewrite in_app_iff, !filter_In, memb_In, negb_true_iff, memb_false. split.
+  - intros [[_ H]|[H _]]; exact H.
+  - intro H. destruct (in_dec Nat.eq_dec x hint) as [Hh|Hh]; [left|right]; auto.
+Qed.
+
+Lemma inner_In g x : In x (inner_states g) <-> In x (s_states g) /\ x <> s_init g /\ x <> s_final g.
+Proof. unfold inner_states. rewrite !remove_nat_In. tauto. Qed.
+
+Lemma remove_nat_NoDup q l : NoDup l -> NoDup (remove_nat q l).
+Proof. intro H. unfold remove_nat. apply NoDup_filter. exact H. Qed.
+
+Lemma remove_nat_length q l : NoDup l -> In q l -> S (length (remove_nat q l)) = length l.
+Proof.
+  induction l as [|x l IH]; intros Hnd Hin; [destruct Hin|].
+  inversion Hnd as [|? ? Hn Hd]; subst. simpl. destruct (Nat.eqb x q) eqn:E; simpl.
+  - apply Nat.eqb_eq in E. subst x. f_equal.
+    assert (Hid : remove_nat q l = l); [|rewrite Hid; reflexivity].
+    unfold remove_nat. clear IH Hnd Hd Hin. induction l as [|y l IH]; [reflexivity|]. simpl.
+    destruct (Nat.eqb y q) eqn:E; simpl.
+    + apply Nat.eqb_eq in E. subst y. exfalso. apply Hn. left. reflexivity.
+    + f_equal. apply IH. intro H. apply Hn. right. exact H.
+  - apply Nat.eqb_neq in E. destruct Hin as [Hin|Hin]; [congruence|]. f_equal. apply IH; assumption.
+Qed.
+
+Lemma srip_ok g q : sg_ok g -> q <> s_init g -> q <> s_final g -> sg_ok (srip g q).
+Proof.
+  intros (H1 & H2 & H3 & H4) Hi Hf. unfold sg_ok. simpl. rewrite !remove_nat_In.
+  repeat split; try assumption; try congruence. apply remove_nat_NoDup. exact H1.
+Qed.
+
+Lemma two_states g p : sg_ok g -> length (s_states g) <= 2 -> In p (s_states g) -> p = s_init g \/ p = s_final g.
+Proof.
+  intros (H1 & H2 & H3 & H4) Hl Hp.
+  destruct (s_states g) as [|x [|y [|z l]]]; simpl in *; try lia; try tauto.
+  all: try (destruct H2 as [H2|[]], H3 as [H3|[]]; congruence).
+  all: destruct H2 as [H2|[H2|[]]], H3 as [H3|[H3|[]]], Hp as [Hp|[Hp|[]]]; subst; try tauto; try congruence.
+Qed.
+
+Lemma many_states g : sg_ok g -> 2 < length (s_states g) -> inner_states g <> [].
+Proof.
+  intros (H1 & H2 & H3 & H4) Hl E.
+  assert (Hincl : incl (s_states g) [s_init g; s_final g]).
+  { intros p Hp. destruct (Nat.eq_dec p (s_init g)) as [->|Ni]; [left; reflexivity|].
+    destruct (Nat.eq_dec p (s_final g)) as [->|Nf]; [right; left; reflexivity|].
+    exfalso. assert (Hi : In p (inner_states g)) by (apply inner_In; auto). rewrite E in Hi. destruct Hi. }
+  pose proof (NoDup_incl_length H1 Hincl) as Hle. simpl in Hle. lia.
+Qed.
+
+Lemma sloop_spec fuel : forall g sched acc, sg_ok g -> length (s_states g) <= fuel + 2 ->
+  exists order, sloop fuel g sched acc = Ok (selim_g g order, rev acc ++ order) /\
+    (forall q, In q order -> q <> s_init g /\ q <> s_final g) /\
+    (forall p, In p (s_states g) -> p = s_init g \/ p = s_final g \/ In p order).
+Proof.
+  induction fuel as [|f IH]; intros g sched acc Hok Hlen.
+  - exists []. assert (E : Nat.ltb 2 (length (s_states g)) = false) by (apply Nat.ltb_ge; lia).
+    simpl. rewrite E, app_nil_r. split; [reflexivity|]. split; [intros q []|].
+    intros p Hp. destruct (two_states g p Hok) as [H|H]; auto.
+  - cbn [sloop]. destruct (Nat.ltb 2 (length (s_states g))) eqn:E.
+    + apply Nat.ltb_lt in E.
+      destruct (argmin_first (degree g) (cand_order (inner_states g) (hd [] sched))) as [q|] eqn:Ea.
+      * apply argmin_first_In in Ea. apply cand_order_In in Ea. apply inner_In in Ea. destruct Ea as (Hq & Hqi & Hqf).
+        destruct (IH (srip g q) (tl sched) (q :: acc)) as (order & Eo & Hav & Hcov).
+        -- apply srip_ok; assumption.
+        -- simpl. destruct Hok as (Hnd & _). pose proof (remove_nat_length q _ Hnd Hq). lia.
+        -- exists (q :: order). split; [|split].
+           ++ rewrite Eo. simpl. rewrite <- app_assoc. reflexivity.
+           ++ intros x [<-|Hx]; [auto|]. apply (Hav x Hx).
+           ++ intros p Hp. destruct (Nat.eq_dec p q) as [->|Hne]; [right; right; left; reflexivity|].
+              destruct (Hcov p) as [H|[H|H]]; auto; [|right; right; right; exact H].
+              simpl. apply remove_nat_In. auto.
+      * exfalso. apply argmin_first_None in Ea. apply (many_states g Hok E).
+        destruct (inner_states g) as [|x l] eqn:Ei; [reflexivity|].
+        assert (Hx : In x (cand_order (x :: l) (hd [] sched))) by (apply cand_order_In; left; reflexivity).
+        rewrite Ea in Hx. destruct Hx.
+    + exists []. rewrite app_nil_r. split; [reflexivity|]. split; [intros q []|].
+      apply Nat.ltb_ge in E. intros p Hp. destruct (two_states g p Hok E Hp) as [H|H]; auto.
+Qed.
+
+Lemma sto_regex_spec g sched : sg_ok g ->
+  exists order, sto_regex g sched = Ok (selim g order, order) /\
+    (forall q, In q order -> q <> s_init g /\ q <> s_final g) /\
+    (forall p, In p (s_states g) -> p = s_init g \/ p = s_final g \/ In p order).
+Proof.
+  intro Hok. destruct (sloop_spec (length (s_states g)) g sched [] Hok) as (order & E & H1 & H2); [lia|].
+  exists order. unfold sto_regex. rewrite E. simpl. split; [reflexivity|]. split; assumption.
+Qed.
+
+Lemma selim_g_init g order : s_init (selim_g g order) = s_init g /\ s_final (selim_g g order) = s_final g.
+Proof. revert g. induction order as [|q r IH]; intro g; simpl; [split; reflexivity|]. apply (IH (srip g q)). Qed.
+
+Lemma sfa_gnfa_ok sts q0 finals lab : NoDup sts -> sg_ok (sfa_gnfa sts q0 finals lab).
+Proof.
+  intro H. unfold sg_ok, sfa_gnfa. simpl. repeat split.
+  - constructor; [|constructor; [|exact H]].
+    + intros [E|Hi]; [lia|]. apply fresh_gt in Hi. lia.
+    + intro Hi. apply fresh_gt in Hi. lia.
+  - left. reflexivity.
+  - right. left. reflexivity.
+  - lia.
+Qed.
+
+(* ================================================================== *)
+(* H. end to end at string level, for every schedule                   *)
+(* ================================================================== *)
+Section EndToEnd.
+  Variable ok : nat -> bool.
+  Hypothesis ok_sym : forall a, ok a = true -> sym_ok a = true.
+
+  (* whatever the schedule: the result of the string-level to_regex is the printing of a
+     well-formed tree that denotes the language of the AST-level GNFA *)
+  Lemma to_regex_string s g sched : grel ok s g -> sg_ok s -> gnfa_ok g ->
+    exists order, sto_regex s sched = Ok (selim s order, order) /\
+      match selim s order with
+      | Some st => exists x, st = show x /\ wf_lab ok x = true /\ xden x =L L_gnfa g
+      | None => forall w, ~ L_gnfa g w
+      end.
+  Proof.
+    intros Hrel Hs Hg. destruct (sto_regex_spec s sched Hs) as (order & E & Hav & Hcov).
+    exists order. split; [exact E|].
+    destruct Hrel as (R1 & R2 & R3 & R4).
+    assert (Hel : rden (elim g order) =L L_gnfa g).
+    { apply elim_lang; [exact Hg| | |].
+      - intro Hi. rewrite <- R2 in Hi. destruct (Hav _ Hi) as [H _]. apply H. reflexivity.
+      - intro Hi. rewrite <- R3 in Hi. destruct (Hav _ Hi) as [_ H]. apply H. reflexivity.
+      - intros p Hp. rewrite <- R1 in Hp. rewrite <- R2, <- R3. apply Hcov. exact Hp. }
+    pose proof (grel_result ok ok_sym s g order (conj R1 (conj R2 (conj R3 R4)))) as Hres.
+    destruct (selim s order) as [st|].
+    - destruct Hres as (x & Ex & Wx & Dx). exists x. split; [exact Ex|]. split; [exact Wx|].
+      eapply lang_eq_trans; [exact Dx|exact Hel].
+    - intros w Hw. apply (Hres w). apply Hel. exact Hw.
+  Qed.
+End EndToEnd.
+
+Theorem dfa_to_regex_string d sched : valid_dfa d = true -> forallb sym_ok (d_syms d) = true ->
+  exists order, dfa_to_regex d sched = Ok (selim (sgnfa_of_dfa d) order, order) /\
+    match selim (sgnfa_of_dfa d) order with
+    | Some st => exists x, st = show x /\ wf_lab (sym_in (d_syms d)) x = true /\ xden x =L L_dfa d
+    | None => forall w, ~ L_dfa d w
+    end.
+Proof.
+  intros Hv Hs. destruct (valid_dfa_parts d Hv) as (Hnd & _).
+  destruct (to_regex_string (sym_in (d_syms d)) (ok_sym_in (d_syms d)) (sgnfa_of_dfa d) (gnfa_of_dfa d) sched)
+    as (order & E & H).
+  - exact (grel_of_dfa (d_syms d) Hs d Hv eq_refl).
+  - apply sfa_gnfa_ok. exact Hnd.
+  - apply gnfa_of_dfa_ok. exact Hv.
+  - exists order. split; [exact E|]. pose proof (gnfa_of_dfa_lang d Hv) as HL.
+    destruct (selim (sgnfa_of_dfa d) order) as [st|].
+    + destruct H as (x & Ex & Wx & Dx). exists x. split; [exact Ex|]. split; [exact Wx|].
+      eapply lang_eq_trans; [exact Dx|exact HL].
+    + intros w Hw. apply (H w). apply HL. exact Hw.
+Qed.
+
+Theorem nfa_to_regex_string n sched : valid_nfa n = true -> forallb sym_ok (n_syms n) = true ->
+  nfa_keys_nodup n = true ->
+  exists order, nfa_to_regex n sched = Ok (selim (sgnfa_of_nfa n) order, order) /\
+    match selim (sgnfa_of_nfa n) order with
+    | Some st => exists x, st = show x /\ wf_lab (sym_in (n_syms n)) x = true /\ xden x =L L_nfa n
+    | None => forall w, ~ L_nfa n w
+    end.
+Proof.
+  intros Hv Hs Hk. destruct (valid_nfa_parts n Hv) as (Hnd & _).
+  destruct (to_regex_string (sym_in (n_syms n)) (ok_sym_in (n_syms n)) (sgnfa_of_nfa n) (gnfa_of_nfa n) sched)
+    as (order & E & H).
+  - exact (grel_of_nfa (n_syms n) Hs n Hv eq_refl Hk).
+  - apply sfa_gnfa_ok. exact Hnd.
+  - apply gnfa_of_nfa_ok. exact Hv.
+  - exists order. split; [exact E|]. pose proof (gnfa_of_nfa_lang n Hv) as HL.
+    destruct (selim (sgnfa_of_nfa n) order) as [st|].
+    + destruct H as (x & Ex & Wx & Dx). exists x. split; [exact Ex|]. split; [exact Wx|].
+      eapply lang_eq_trans; [exact Dx|exact HL].
+    + intros w Hw. apply (H w). apply HL. exact Hw.
+Qed.
